@@ -29,7 +29,7 @@ def run(ctx):
     r2(ctx)
     r3(ctx)
     ctx.min_instances('C08.R1', 8)
-    ctx.min_instances('C08.R2', 4)
+    ctx.min_instances('C08.R2', 2)
     ctx.min_instances('C08.R3', 7)
 
 
@@ -312,14 +312,42 @@ def r2(ctx):
                                 st2, 'constant index %d outside list of '
                                 'length %d' % (const(i), k),
                                 key='%s | %s' % (fi.full, src(st2)))
-    # sibling lists indexed by the same loop use comprehensions over the
-    # same range (reference shape)
-    cg = repo.func('region_rodded', 'calculate_geometry')
-    comp = [st for t, st in U.stores(cg.node) if isinstance(st, ast.Assign)
-            and isinstance(st.value, ast.ListComp) and
-            'range(n_bypass)' in src(st.value)]
-    for st in comp:
-        ctx.ok('C08.R2', cg, st, 'sized by range(n_bypass)')
+    # lists sized by a comprehension over range(M) and indexed by a loop
+    # variable over range(.., N): M must be N (symbolic length domain)
+    for fi in repo.all_funcs():
+        if fi.mod.name not in ('dassh.region_rodded', 'dassh.subchannel',
+                               'dassh.region_unrodded', 'dassh.core'):
+            continue
+        for t, st in U.stores(fi.node):
+            if not isinstance(st, ast.Assign) or not isinstance(
+                    st.value, ast.ListComp):
+                continue
+            gens = st.value.generators
+            if len(gens) != 1 or not (isinstance(gens[0].iter, ast.Call) and
+                                      call_name(gens[0].iter) == 'range' and
+                                      len(gens[0].iter.args) == 1):
+                continue
+            M = src(gens[0].iter.args[0])
+            tgt = src(t)
+            for t2, st2 in U.stores(fi.node):
+                if st2.lineno <= st.lineno or not isinstance(
+                        t2, ast.Subscript) or src(t2.value) != tgt or \
+                        not isinstance(t2.slice, ast.Name):
+                    continue
+                lps = [l for l in U.enclosing_loops(st2)
+                       if isinstance(l, ast.For) and
+                       src(l.target) == t2.slice.id and
+                       isinstance(l.iter, ast.Call) and
+                       call_name(l.iter) == 'range']
+                if not lps:
+                    continue
+                hi = lps[0].iter.args[-1] if len(lps[0].iter.args) <= 2 \
+                    else lps[0].iter.args[1]
+                n += 1
+                ctx.require(src(hi) == M, 'C08.R2', fi, st2,
+                            'list %s has length %s but is indexed by %s over '
+                            'range(..., %s)' % (tgt, M, t2.slice.id, src(hi)),
+                            key='%s | %s sized %s' % (fi.full, tgt, M))
     ctx.extra['indexed_fixed_lists'] = n
 
 
